@@ -37,7 +37,7 @@ func newEngine(c *Context, sp *ssa.Package, fn *ssa.Function, fc *FuncContract) 
 		}
 		e.noInline = map[string]bool{}
 		for _, ec := range fc.EffectCl {
-			for _, p := range []*callPattern{ec.Every, ec.Needs} {
+			for _, p := range append([]*callPattern{ec.Every, ec.Needs}, ec.MoreNeeds...) {
 				if p != nil && p.static != "" {
 					e.noInline[p.static] = true
 				}
@@ -322,6 +322,7 @@ func (c *Context) verifyFunc(fc *FuncContract) (res *FuncResult) {
 	e.entryArgs, e.entryState = args, entry
 	vals, out, reach := e.execFunc(fn, args, bind, st, "true", true)
 	e.exitVals, e.exitState, e.exitReach = vals, out, reach
+	coverFacts := len(e.facts) // the vacuity check looks at what the body assumes, not at postconditions assumed after being asserted
 	if reach != "false" {
 		for _, pf := range fc.postFuncs() {
 			goal := e.evalPostNamed(sp, pf, fn, args, bind, vals, entry, out)
@@ -337,7 +338,7 @@ func (c *Context) verifyFunc(fc *FuncContract) (res *FuncResult) {
 		e.frameObligations(fc, fn, args, out, reach)
 	}
 	// vacuity: the precondition together with everything assumed on the way must leave some return reachable
-	e.obls = append(e.obls, Oblig{Name: fnDisplayName(fn) + "#cover:return-reachable", Kind: "cover", Reach: reach, Goal: "false", NFacts: len(e.facts), Pos: c.fset.Position(fn.Pos()), Expect: "sat"})
+	e.obls = append(e.obls, Oblig{Name: fnDisplayName(fn) + "#cover:return-reachable", Kind: "cover", Reach: reach, Goal: "false", NFacts: coverFacts, Pos: c.fset.Position(fn.Pos()), Expect: "sat"})
 	return
 }
 
